@@ -76,9 +76,15 @@ func (g *G) runMatchCase(c *matchCase, reps int) {
 		} else {
 			p, f, bs = deepCopy(c.P, g), deepCopy(c.F, g), deepCopy(c.Bs, g).(map[string]interface{})
 		}
+		if g.mode == "c03" && i >= 1 && g.chance(0.4) {
+			// the same pattern built by a Go program: whole numbers held as int,
+			// int64 or float32 where the matcher coerces them (map values)
+			p = intify(p, g)
+		}
 		before := canon(p) + canon(f) + canon(bs)
+		typedBefore := fmt.Sprintf("%#v|%#v|%#v", p, f, bs)
 		class, res := callMatch(p, f, bs)
-		if canon(p)+canon(f)+canon(bs) != before {
+		if canon(p)+canon(f)+canon(bs) != before || fmt.Sprintf("%#v|%#v|%#v", p, f, bs) != typedBefore {
 			c.Intact = false
 		}
 		key := multisetKey(class, res)
@@ -120,6 +126,38 @@ func (g *G) runMatchCase(c *matchCase, reps int) {
 				c.Independent = false
 			}
 		}
+	}
+}
+
+// intify re-types whole numbers that are values of a map (the places where
+// the matcher coerces numeric types) as int / int64 / float32.
+func intify(x interface{}, g *G) interface{} {
+	switch v := x.(type) {
+	case map[string]interface{}:
+		m := make(map[string]interface{}, len(v))
+		for k, y := range v {
+			if f, is := y.(float64); is && f == float64(int(f)) {
+				switch g.intn(4) {
+				case 0:
+					m[k] = int(f)
+				case 1:
+					m[k] = int64(f)
+				case 2:
+					m[k] = float32(f)
+				default:
+					m[k] = f
+				}
+				continue
+			}
+			if _, is := y.(map[string]interface{}); is {
+				m[k] = intify(y, g)
+				continue
+			}
+			m[k] = y
+		}
+		return m
+	default:
+		return x
 	}
 }
 
@@ -239,6 +277,7 @@ func must(err error) {
 }
 
 func matchComponent(g *G, n int, opts map[string]string) *Out {
+	g.mode = opts["mode"]
 	o := newOut("Corr.MatchCorr", "mcase")
 	reps := 6
 	emit := func(c *matchCase) {
